@@ -62,6 +62,8 @@ func (e c04Event) String() string {
 		r = "none"
 	case e.Ref == 100:
 		r = "never"
+	case e.Ref == 150:
+		r = "other-server's"
 	case e.Ref > 100:
 		r = fmt.Sprint("foreign", e.Ref-100)
 	}
@@ -103,6 +105,9 @@ func c04Events(cfg c04Cfg, m c04Model, maxSess int) []c04Event {
 		refs = append(refs, i)
 	}
 	refs = append(refs, 100, 101, 102)
+	if cfg.Mode == "stateful" {
+		refs = append(refs, 150) // a live id issued by another server of the same process
+	}
 	var evs []c04Event
 	for _, op := range []string{"init", "request", "notify", "respond", "get", "delete"} {
 		for _, r := range refs {
@@ -222,9 +227,17 @@ type c04World struct {
 	streams []*memnet.Exchange // current stream per session index
 	allGets map[int][]*memnet.Exchange
 	nreq    int
+	// a second, independent stateful server in the same process with one live session of its own:
+	// its id is "foreign-made" for the server under test (ref 150), and nothing done to the server
+	// under test may touch it
+	other     *mcp.Server
+	otherPeer *hx.Peer
+	otherID   string
 }
 
-func c04New(cfg c04Cfg) *c04World {
+func c04New(cfg c04Cfg) *c04World { return c04NewWorld(cfg, true) }
+
+func c04NewWorld(cfg c04Cfg, neighbour bool) *c04World {
 	opts := []mcp.ServerOption{mcp.WithServerLogger(hx.Nop{}), mcp.WithGetSSEEnabled(cfg.GetSSE), mcp.WithPostSSEEnabled(cfg.PostSSE)}
 	switch cfg.Mode {
 	case "stateless":
@@ -237,7 +250,19 @@ func c04New(cfg c04Cfg) *c04World {
 		return mcp.NewTextResult("ok"), nil
 	})
 	fab := memnet.NewFabric("srv", srv.Handler())
-	return &c04World{cfg: cfg, srv: srv, peer: hx.NewPeer(fab, "http://srv/mcp"), allGets: map[int][]*memnet.Exchange{}}
+	w := &c04World{cfg: cfg, srv: srv, peer: hx.NewPeer(fab, "http://srv/mcp"), allGets: map[int][]*memnet.Exchange{}}
+	if cfg.Mode == "stateful" && neighbour {
+		w.other = mcp.NewServer("other", "1", mcp.WithServerLogger(hx.Nop{}))
+		w.other.RegisterTool(mcp.NewTool("t"), func(ctx context.Context, req *mcp.CallToolRequest) (*mcp.CallToolResult, error) {
+			return mcp.NewTextResult("other"), nil
+		})
+		w.otherPeer = hx.NewPeer(memnet.NewFabric("other", w.other.Handler()), "http://other/mcp")
+		if r := w.otherPeer.Post("", hx.InitBody(1, "2025-03-26")); r.Err == nil && r.Status == 200 {
+			w.otherID = r.SessionID()
+		}
+		vsched.Quiesce()
+	}
+	return w
 }
 
 func (w *c04World) idOf(ref int) string {
@@ -248,6 +273,8 @@ func (w *c04World) idOf(ref int) string {
 		return w.ids[ref]
 	case ref == 100:
 		return "00112233445566778899aabbccddeeff"
+	case ref == 150:
+		return w.otherID
 	default:
 		return c04Foreign[(ref-101)%len(c04Foreign)]
 	}
@@ -392,6 +419,22 @@ func c04Check(cfg c04Cfg, w *c04World, m c04Model, ev c04Event, exp c04Expect, o
 		sort.Strings(want)
 		if err != nil || strings.Join(act, ",") != strings.Join(want, ",") {
 			viol = append(viol, V(k("live-set"), "%s -> GetActiveSessions()=%v (err %v) but the history leaves %v alive", where, act, err, want))
+		}
+		// the neighbour server is untouched by anything addressed to the server under test
+		if w.other != nil {
+			if w.otherID == "" {
+				viol = append(viol, V("setup-handshake-fails", "the second server did not issue a session id"))
+			} else {
+				oa, oerr := w.other.GetActiveSessions()
+				if oerr != nil || len(oa) != 1 || oa[0] != w.otherID {
+					viol = append(viol, V(k("neighbour-live-set"), "%s -> a second server of the same process, on which exactly session %s was initialized, reports GetActiveSessions()=%v (err %v)", where, w.otherID, oa, oerr))
+				}
+				r := w.otherPeer.Post(w.otherID, `{"jsonrpc":"2.0","id":7,"method":"ping"}`)
+				vsched.Quiesce()
+				if r.Err != nil || r.Status != 200 {
+					viol = append(viol, V(k("neighbour-session-lost"), "%s -> the session of a second server of the same process no longer answers on its own server: HTTP %d %v", where, r.Status, r.Err))
+				}
+			}
 		}
 		streams := mcp.VerifGetStreamSessions(w.srv)
 		var wantS []string
@@ -543,7 +586,7 @@ func c04IDQuality(tier string, i int) CaseResult {
 		var reqs []int
 		vsched.Run(vsched.Config{}, func() {
 			vrand.SetSource(src)
-			w := c04New(c04Cfg{"stateful", true, true})
+			w := c04NewWorld(c04Cfg{"stateful", true, true}, false)
 			r := w.peer.Post("", hx.InitBody(1, "2025-03-26"))
 			id = r.SessionID()
 			reqs = vrand.Requests()
